@@ -187,6 +187,9 @@ def gen(seed, tier):
                 st.setdefault('kw', {})['ttl'] = rng.choice([1, 5, 60, 120] + ([-1] if op != 'send' else []))
             if op == 'fill' and rng.random() < 0.1:
                 st.setdefault('kw', {})['minimal_nanotez_per_gas_unit'] = rng.choice([100, 250])
+            if op in ('fill', 'autofill') and not frm and rng.random() < 0.08:
+                # documented manual handling of the counter: the caller passes the next counter it has read from the node itself
+                st.setdefault('kw', {})['counter'] = 'head+1'
             if op == 'inject' and st.get('minconf') and rng.random() < 0.3:
                 st['wait'] = rng.choice([2, 5, 20])
             if op == 'inject' and rng.random() < 0.2:
